@@ -80,6 +80,7 @@ def run(ctx):
               idxs.add((nme, pr[i + 1]))
     ctx.ob('R10.1', fn, f'reads terms.offset.{idx} and terms.height.{idx}', idxs == {('offset', idx), ('height', idx)}, f'reads {sorted(idxs)}', where(b0, b0.line))
 
+  _r10_3(ctx)
   # ---------------- R10.2
   m = ctx.body('R10.2', MINT)
   if m is not None:
@@ -175,3 +176,21 @@ def _incs(body, field):
           if any(o.startswith('Add') for o in sl.binops) and field in sl.fields:
             out.append((bi, s.get('l')))
   return out
+
+
+def _r10_3(ctx):
+  """a mint of a rune that is not yet etched has no effect: the entry of the rune etched by this very transaction is created after the mint step"""
+  from ..core import where
+  F = ctx.facts
+  ctx.rule('R10.3', 'RuneUpdater::index_runes: no call of RuneUpdater::mint is reachable from a call of create_rune_entry (never-after) — a transaction cannot mint the rune it etches itself, because its entry does not exist yet when the mint is processed')
+  b = ctx.body('R10.3', 'ord::index::updater::rune_updater::RuneUpdater::index_runes')
+  if b is None:
+    return
+  ctx.analysed(b)
+  mints = b.calls_to('ord::index::updater::rune_updater::RuneUpdater::mint')
+  creates = b.calls_to('ord::index::updater::rune_updater::RuneUpdater::create_rune_entry')
+  ctx.anchor('R10.3', 'mint and create_rune_entry calls in index_runes', len(mints) >= 1 and len(creates) >= 1, b.n)
+  for c in creates:
+    for m in mints:
+      ctx.ob('R10.3', b.n, 'create_rune_entry is never followed by mint', not b.strictly_reaches(c.bb, m.bb) and c.bb != m.bb,
+             'the entry of the rune etched by this transaction exists before its own mint is processed: an etching that names its own future id mints immediately', where(b, c.line))
